@@ -151,10 +151,15 @@ func (s *jwtSigner) Hash() []byte {
 	jwk := s.jwk
 	s.mut.RUnlock()
 
+	// the thumbprint stands for the key material: a key store reloaded with another
+	// key under the same key id results in another hash
+	thumbprint, _ := jwk.Thumbprint(crypto.SHA256)
+
 	hash := sha256.New()
 	hashx.WriteString(hash, jwk.KeyID)
 	hashx.WriteString(hash, jwk.Algorithm)
 	hashx.WriteString(hash, s.iss)
+	hashx.WriteBytes(hash, thumbprint)
 
 	return hash.Sum(nil)
 }
